@@ -1624,3 +1624,42 @@ def kinds_with(tag=None, seq=None, exclude=()):
             continue
         out.append(k)
     return out
+
+
+@register
+class DualPortSynchronousMemory(SeqKind):
+    name = 'DualPortSynchronousMemory'
+    tags = ('c09', 'seq', 'noverilog')
+    weight = 0.7
+
+    def plan(self, rng, pool):
+        aw = rng.randint(1, 3)
+        dw = rng.choice([1, 4, 8, rand_width(rng, 1, 40)])
+        ins = [pool.pick(aw)[0], pool.pick(aw)[0], pool.pick(1)[0], pool.pick(dw)[0],
+               pool.pick(aw)[0], pool.pick(aw)[0], pool.pick(1)[0], pool.pick(dw)[0]]
+        return {}, ins, [dw, dw]
+
+    def build(self, parent, nm, ins, outs, p):
+        # (read_address_a, write_address_a, write_a, readdata_a, writedata_a, read_address_b, ...)
+        return py4hw.DualPortSynchronousMemory(parent, nm, ins[0], ins[1], ins[2], outs[0], ins[3],
+                                               ins[4], ins[5], ins[6], outs[1], ins[7])
+
+    def init(self, p, iw, ow):
+        return (tuple([0] * (1 << iw[0])), 0, 0, False)
+
+    def outs(self, p, st, iv, iw, ow):
+        if st[3]:
+            return [None, None]
+        return [st[1], st[2]]
+
+    def nxt(self, p, st, iv, iw, ow):
+        mem, ra_, rb_, bad = st
+        ra, wa, wea, wda, rb, wb, web, wdb = iv
+        qa, qb = M(mem[ra], ow[0]), M(mem[rb], ow[1])
+        if wea and web and wa == wb and wda != wdb:
+            bad = True          # two ports writing different data to one cell: not specified
+        if wea:
+            mem = mem[:wa] + (wda,) + mem[wa + 1:]
+        if web:
+            mem = mem[:wb] + (wdb,) + mem[wb + 1:]
+        return (mem, qa, qb, bad)
